@@ -53,11 +53,14 @@ type World struct {
 	resolveFallible bool // canonResolved: also look through helpers that return an error
 	noHelperAtoms   bool
 	lastRetBlocks   map[ssa.Value]*ssa.BasicBlock // returnedValues: the block each value was returned from
-	phiSubst        map[*ssa.Phi]ssa.Value        // branch markers: phis print as the value of the edge the path took
-	evmAtomic       bool                          // A-4 holds: EVMCtrler.ExecuteTrx reverts to its snapshot on every failure
-	neverFails      func(*ssa.Call) bool          // steps whose error edge is dead (checked side conditions)
+	lastRetOrig     map[ssa.Value]ssa.Value
+	phiSubst        map[*ssa.Phi]ssa.Value // branch markers: phis print as the value of the edge the path took
+	evmAtomic       bool                   // A-4 holds: EVMCtrler.ExecuteTrx reverts to its snapshot on every failure
+	neverFails      func(*ssa.Call) bool   // steps whose error edge is dead (checked side conditions)
 	payloadTab      map[int64]string
 	cur             *pathCtxt // path being enumerated (event callbacks only)
+	fwdMemo         map[*ssa.Function][]*ssa.Call
+	apFlowMemo      *applyFlowVerdict
 	pureMemo        map[*ssa.Function]bool
 	inlineEnv       []map[*ssa.Parameter]string
 	// enumPaths records the branch taken at every If as "?T:<cond>" / "?F:<cond>"
